@@ -32,6 +32,8 @@ def copy_alphabet(wk, gene, tier):
             kinds.add(key)
             pick.append(M)
     pick = pick[: (8 if tier == "quick" else 14)]
+    # always: the alleles whose indels / MNV touch the first or the last base of the mapped part, and the del-ins
+    pick += [M for M in names if M in ("16", "19", "20", "21", "22", "23") and M not in pick]
     for i, M in enumerate(pick):
         for mi in sorted(gene.alleles[M].minors)[: (1 if i > 2 else 2)]:
             defs = tables.allele_variants(gene, M, mi)
@@ -50,7 +52,8 @@ def copy_alphabet(wk, gene, tier):
 
 
 def world_list(tier, seed):
-    gens = [worlds.WorldSpec(("+", "-"), True, False, 0, "rich"), worlds.WorldSpec(("-", "+"), True, True, 1, "rich")]
+    # "edge" = rich table + del-ins + indels / MNV touching the first and the last base of the mapped part
+    gens = [worlds.WorldSpec(("+", "-"), True, False, 0, "edge"), worlds.WorldSpec(("-", "+"), True, True, 1, "edge")]
     # the toy database of the test suite is not used: its variants do not match its own reference
     # sequence, so "REF/ALT spell the variant against the reference" has no meaning there
     if tier == "quick":
